@@ -494,6 +494,15 @@ structure Observation where
 def observe (σ : State) : Observation :=
   ⟨σ.stack.map erase, (σ.stack.flatMap Val.refs).map fun r => σ.heap[r]?, σ.heap[σ.cur]?⟩
 
+/-- result and observation after every cell of a session -/
+def traceWith (rebind : Bool) : State → List Cell → List (CellResult × Observation)
+  | _, [] => []
+  | σ, c :: cs =>
+    let r := cellWith rebind σ c
+    (r.2, observe r.1) :: traceWith rebind r.1 cs
+
+def trace (σ : State) (cs : List Cell) : Option (List (CellResult × Observation)) := config.map fun rb => traceWith rb σ cs
+
 /-- well-formed: the interpreter's context exists and every stacked big map points at it -/
 def WF (σ : State) : Prop := σ.cur < σ.heap.length ∧ ∀ v ∈ σ.stack, ∀ r ∈ v.refs, r = σ.cur
 
